@@ -183,8 +183,14 @@ func runUnit(u Unit) UnitResult {
 		return runX1Unit(u, sc, b)
 	case "x1chunk":
 		scs := x1Scenarios(u.Prop, u.Tier)
-		total := UnitResult{Name: u.Name, Exhaustive: true, Unbounded: true, Bound: 1 << 30}
+		total := UnitResult{Name: u.Name, Exhaustive: true, Unbounded: true, Bound: 1 << 30, Prescribed: 1 << 30}
 		outcomes := 0
+		share := 0
+		for _, sc := range scs {
+			if chunkOf(sc.Name) == u.Index {
+				share++
+			}
+		}
 		for i, sc := range scs {
 			_ = i
 			if chunkOf(sc.Name) != u.Index {
@@ -210,7 +216,11 @@ func runUnit(u Unit) UnitResult {
 					continue // status points matter for the graph sweeps; the cancel family runs in the plain build
 				}
 			}
-			r := runX1Unit(u, sc, b)
+			r := runX1UnitShare(u, sc, b, share)
+			total.Notes = append(total.Notes, r.Notes...)
+			if r.Prescribed < total.Prescribed {
+				total.Prescribed = r.Prescribed
+			}
 			total.Execs += r.Execs
 			total.States += r.States
 			total.Transitions += r.Transitions
@@ -260,10 +270,29 @@ func logStrings(w *World) []string {
 	return res
 }
 
+// bonusAllowance is the CPU time of a unit within which X1 goes on to deviation bounds beyond the prescribed one
+func bonusAllowance(tier string) time.Duration {
+	if os.Getenv("VERIF_NO_BONUS") != "" {
+		return 0
+	}
+	if tier == "thorough" {
+		return 4 * time.Minute
+	}
+	return 10 * time.Second
+}
+
 func runX1Unit(u Unit, sc *Scenario, bound int) UnitResult {
+	return runX1UnitShare(u, sc, bound, 1)
+}
+
+// runX1UnitShare: share = number of scenarios that share the unit's bonus allowance
+func runX1UnitShare(u Unit, sc *Scenario, bound int, share int) UnitResult {
 	res := UnitResult{Name: u.Name}
 	x := NewX1(sc, bound)
 	x.Deadline = newBudget(unitDeadline(u.Tier))
+	if a := bonusAllowance(u.Tier) / time.Duration(share); a >= time.Second && sc.Static == nil && os.Getenv("VERIF_BOUND") == "" {
+		x.Bonus = newBudget(a)
+	}
 	if u.Prop == "C13" {
 		if !vsched.RaceBuild && os.Getenv("VERIF_C13_NORACE") == "" {
 			panic(InfraError{"C13 units must run in the race build of the engine"})
@@ -322,6 +351,10 @@ func runX1Unit(u Unit, sc *Scenario, bound int) UnitResult {
 	res.Transitions = x.Steps
 	res.MaxDepth = x.MaxDepth
 	res.Bound = x.Bound
+	res.Prescribed = x.Prescribed
+	if x.BonusNote != "" {
+		res.Notes = append(res.Notes, sc.Name+": "+x.BonusNote)
+	}
 	res.Outcomes = len(x.Outcomes)
 	res.Unbounded = !x.BoundHit && !x.TimedOut
 	res.Exhaustive = !x.TimedOut
